@@ -200,10 +200,18 @@ def make(seed, n_pairs):
                 kind = gkind
             else:
                 kind = ("group-optional-member-" if gkind == "group-optional-member-edited" else "group-member-") + kind
+        outer = (not group) and k % 4 == 1
+        if outer:
+            # the edited trait is the interface of an object RETURNED by a method of the compared type
+            how = rng.choice(["owned", "mut"])
+            o_src = ("#[cglue_trait]\npub trait Outer {\n    #[wrap_with_obj(T)]\n    type R: T + 'static;\n    fn id(&self) -> u32;\n    fn get(&self) -> Self::R;\n}\n" if how == "owned" else
+                     "#[cglue_trait]\npub trait Outer {\n    #[wrap_with_obj_mut(T)]\n    type R: T + 'static;\n    fn id(&self) -> u32;\n    fn get_mut(&mut self) -> &mut Self::R;\n}\n")
+            ga = gb = o_src
+            kind = f"returned-object({how})-" + kind
         body.append(f"pub mod a{k} {{ use super::*;\n{a_src}{ga}}}")
         body.append(f"pub mod b{k} {{ use super::*;\n{b_src}{gb}}}")
-        ty = "GBox<'static>" if group else "TBox<'static>"
-        ty2 = "GArcBox<'static>" if group else "TArcBox<'static>"
+        ty = "GBox<'static>" if group else ("OuterBox<'static>" if outer else "TBox<'static>")
+        ty2 = "GArcBox<'static>" if group else ("OuterArcBox<'static>" if outer else "TArcBox<'static>")
         rows.append((k, kind, expect, a_src + ga, b_src + gb, ty, ty2))
     body.append("fn pairs() -> Vec<(Pair, VerifyLayout, VerifyLayout, [VerifyLayout; 4], VerifyLayout)> { vec![")
     for (k, kind, expect, a, b, ty, ty2) in rows:
@@ -275,7 +283,7 @@ fn main() {
             Ok(Info::new(p.expect == "differs").class(format!("edit:{}", p.kind)).class(format!("expect:{}", p.expect)))
         });
     }
-    let code = ctx.finish("pairs (definition, single-edit variant) over traits with 1-4 methods on StableAbi leaf types and groups built from them: edits = add/remove/rename/reorder a method, change one argument or return type (C-visible, or C-neutral such as &str <-> &[u8] or a parameter rename), change receiver kind, toggle int_result, add/remove an argument, add/remove an optional trait, swap mandatory/optional, permute the declared order of optional traits (neutral: they are sorted); both sides are expanded in separate modules of a crate built with the layout_checks feature and the Box and ArcBox opaque object/group types are compared with compare_layouts. Oracle: identical C-visible interface => Valid; different => not Valid; missing description => Unknown; type vs itself => Valid; plus the 9 ordered pairs of the `and` table. Non-trivial = the edited pairs", &["the expected verdict comes from the generator's model of the C-visible signature (method name, receiver, wrapped argument/return types)"], false);
+    let code = ctx.finish("pairs (definition, single-edit variant) over traits with 1-4 methods on StableAbi leaf types and groups built from them: edits = add/remove/rename/reorder a method, change one argument or return type (C-visible, or C-neutral such as &str <-> &[u8] or a parameter rename), change receiver kind, toggle int_result, add/remove an argument, add/remove an optional trait, swap mandatory/optional, permute the declared order of optional traits (neutral: they are sorted), and the same edits applied to the trait of an object that a method of the compared type RETURNS (owned or by mutable reference); both sides are expanded in separate modules of a crate built with the layout_checks feature and the Box and ArcBox opaque object/group types are compared with compare_layouts. Oracle: identical C-visible interface => Valid; different => not Valid; missing description => Unknown; type vs itself => Valid; plus the 9 ordered pairs of the `and` table. Non-trivial = the edited pairs", &["the expected verdict comes from the generator's model of the C-visible signature (method name, receiver, wrapped argument/return types)"], false);
     std::process::exit(code);
 }
 """
